@@ -128,7 +128,7 @@ def run_job(spec):
             eng.assume(msgdrv.fterm(pay.term(), 8 * pl, 0, 12) == 4072)
             data = SymBytes(list(nz.e) + [0xD3, 0, pl] + pay.e + crc.e + list(sym.symbytes("t", tail).e))
             H['data'] = data
-            sock = shims.SymSocket(data, maxcuts=1 if len(data) > 9 else 2, faults=1)
+            sock = shims.SymSocket(data, maxcuts=2 if noise == 0 else 1, faults=1)
             run = rdrdrv.Run()
             rec = rdrdrv.CrcRecorder(rdrdrv.CrcSummary())
             shims.set_crc(rec)
